@@ -239,15 +239,18 @@ class ElementList(MutableSequence):
         :type child: :class:`Element <hl7apy.core.Element>`
         :param child: an instance of an :class:`Element <hl7apy.core.Element>` subclass
         """
-        if self._can_add_child(child):
-            try:
-                if by_name_index == -1:
-                    self.indexes[child.name].append(child)
-                else:
-                    self.indexes[child.name].insert(by_name_index, child)
-            except KeyError:
-                self.indexes[child.name] = [child]
-            self.list.insert(index, child)
+        if not self._can_add_child(child):
+            # the child has just been linked to this element and appended by the re-entrant add():
+            # take it back out so that it ends up at the requested position
+            self.remove(child)
+        try:
+            if by_name_index == -1:
+                self.indexes[child.name].append(child)
+            else:
+                self.indexes[child.name].insert(by_name_index, child)
+        except KeyError:
+            self.indexes[child.name] = [child]
+        self.list.insert(index, child)
 
     def append(self, child):
         """
